@@ -362,6 +362,9 @@ fn focused(rng: &mut Rng, clean: bool) -> String {
     let mut s = parts.join(sep);
     if rng.chance(1, 8) {
         s = format!("---\ntitle: t\n---\n\n{}", s);
+    } else if rng.chance(1, 8) {
+        // a note may open with empty lines: line numbers count from the first line of the text, not of its content
+        s = format!("{}{}", rng.pick(&["\n", "\n\n", "\n\n\n"]), s);
     }
     if clean || !rng.chance(1, 3) {
         s.push('\n');
